@@ -436,8 +436,33 @@ func c14Stanza(c *cx) {
 	}
 }
 
+// c14RoutersHandOnTheReceivedStart (C14.13): handlers replay the stanza from
+// its start element: the routers hand forChildren the start element they were
+// given (their own parameter), not one rebuilt from the decoded stanza - a
+// rebuilt one has lost every attribute the stanza type does not model and
+// turns an unknown or missing type into the default.
+func c14RoutersHandOnTheReceivedStart(c *cx, id string) {
+	n := 0
+	for _, name := range []string{"(*ServeMux).msgRouter", "(*ServeMux).presenceRouter"} {
+		f := c.fn(id, "mux", name)
+		if f == nil {
+			continue
+		}
+		for _, cl := range f.Calls("mux.forChildren") {
+			if len(cl.Args) != 4 {
+				continue
+			}
+			n++
+			a := f.Norm(cl.Args[3], nil)
+			c.r.Check(id, f, "start element handed to forChildren", "P: the received start element (parameter 1) itself", cl.Pos(), a == "p1", "forChildren gets "+a)
+		}
+	}
+	c.r.Floor(id, "forChildren calls of the routers", n, 2)
+}
+
 func c14Handler(c *cx) {
 	id := "C14.2"
+	c14RoutersHandOnTheReceivedStart(c, "C14.13")
 	f := c.fn(id, "mux", "(*ServeMux).Handler")
 	if f == nil {
 		return
@@ -493,6 +518,10 @@ func c14Handler(c *cx) {
 				seen[router] = true
 				c.dom(id, f, rs, "route to "+router, []string{"stanza.Is(p0,recv.stanzaNS)", "eq(p0.Local," + k + ")"})
 				c.r.Check(id, f, "route to "+router+" reports ok", "K: stanza routers are returned with ok == true", rs.Pos(), f.Norm(rs.Results[1], nil) == "true", "")
+				// ... whenever the element is that stanza and no top-level pattern took
+				// it: no further condition (a flag computed from the patterns present
+				// when the mux was built goes stale with the next registration)
+				c.onlyFacts(id, f, rs, "route to "+router+" [no other condition]", []string{"stanza.Is(p0,recv.stanzaNS)", "eq(p0.Local," + k + ")", "!eq(p0.Local,mux.*Stanza)", "eq(recv.patterns[*],nil)", "eq(*,nil)"})
 			}
 		}
 		if res == "mux.nopHandler{}" {
